@@ -70,6 +70,30 @@ def batch(ctx, n, **opts):
     return cases
 
 
+def list_form_cases(ctx):
+    """directed: every list form with 1..3 body elements against short value sequences enumerated exhaustively over a
+    small member universe that includes members `from_native` cannot convert and relaxed dicts with extra keys"""
+    import itertools
+    from d42 import schema
+    rel = schema.dict({"a": schema.int, ...: ...})
+    bodies = [[schema.int], [schema.int, schema.str], [schema.int, schema.int], [rel], [schema.int, rel],
+              [schema.str, schema.int, schema.str]]
+    members = [1, "a", object(), (1,), {"a": 1, "b": 2}, {"a": 1}]
+    cases = []
+    for body in bodies:
+        forms = [list(body), body + [...], [...] + body, [...] + body + [...]]
+        for els in forms:
+            s = schema.list(els)
+            maxlen = ctx.n(4, 5) if len(body) < 3 else 4
+            for n in range(0, maxlen + 1):
+                for combo in itertools.product(range(len(members)), repeat=n):
+                    if n >= 4 and ctx.rnd.random() < ctx.n(0.7, 0.3):
+                        continue
+                    v = [members[i] if not isinstance(members[i], (dict, tuple)) else (dict(members[i]) if isinstance(members[i], dict) else members[i]) for i in combo]
+                    cases.append(SubCase(s, None, v, "listform"))
+    return cases
+
+
 def run_real(c):
     I = encode.Interner()
     c.I = I
